@@ -273,18 +273,14 @@ with kstmt (SF : sfk) (il : bool) (B CD : kctx) (s : stmt) {struct s} : kres :=
     let kstep := fun B' => match step with None => true | Some e => ok_dexpr B' CD e && step_free B' body e end in
     match name, collide with
     | Some x, false =>   (* a fresh counter: a variable of the enclosing block for the duration of the loop *)
-      (* the VM binds the counter before it evaluates the upper bound: either that one is call-free and does not mention x, or no
-         captured variable is called x, or the bound does not mention x (as a variable or as a free variable of a literal) *)
-      if is_KD (kexpr SF B CD a) && is_KD (kexpr SF B CD b) && src_nameb x && negb (mem_str x (map fst B)) &&
-         (ok_dexpr B CD b && negb (mem_str x (used_e b)) || negb (mem_str x (map fst CD)) || nm x b) &&
-         kstep ((x, KD) :: B) then
+      if is_KD (kexpr SF B CD a) && is_KD (kexpr SF B CD b) && src_nameb x && negb (mem_str x (map fst B)) && kstep ((x, KD) :: B) then
         match kb true ((x, KD) :: B) body with Some (_, r) => Some (B, r) | None => None end
       else None
-    | Some x, true =>    (* the counter is an existing local variable (the upper bound mentions no variable) *)
-      if is_KD (kexpr SF B CD a) && ok_dexpr B CD b && src_nameb x && is_KD (assoc x B) && match used_e b with [] => true | _ => false end && kstep B then
+    | Some x, true =>    (* the counter is an existing local variable *)
+      if is_KD (kexpr SF B CD a) && is_KD (kexpr SF B CD b) && src_nameb x && is_KD (assoc x B) && kstep B then
         match kb true B body with Some (_, r) => Some (B, r) | None => None end
       else None
-    | None, false =>     (* a hidden counter: the upper bound may contain calls *)
+    | None, false =>     (* a hidden counter *)
       if is_KD (kexpr SF B CD a) && is_KD (kexpr SF B CD b) && kstep B then
         match kb true B body with Some (_, r) => Some (B, r) | None => None end
       else None
@@ -500,13 +496,11 @@ Qed.
 Lemma kstmt_SFrom : forall SF il B CD a b incl step name collide body, kstmt SF il B CD (SFrom a b incl step name collide body) =
   match name, collide with
   | Some x, false =>
-    if is_KD (kexpr SF B CD a) && is_KD (kexpr SF B CD b) && src_nameb x && negb (mem_str x (map fst B)) &&
-       (ok_dexpr B CD b && negb (mem_str x (used_e b)) || negb (mem_str x (map fst CD)) || nm x b) &&
-       kstep SF ((x, KD) :: B) CD body step then
+    if is_KD (kexpr SF B CD a) && is_KD (kexpr SF B CD b) && src_nameb x && negb (mem_str x (map fst B)) && kstep SF ((x, KD) :: B) CD body step then
       match kblock SF true ((x, KD) :: B) CD body with Some (_, r) => Some (B, r) | None => None end
     else None
   | Some x, true =>
-    if is_KD (kexpr SF B CD a) && ok_dexpr B CD b && src_nameb x && is_KD (assoc x B) && match used_e b with [] => true | _ => false end && kstep SF B CD body step then
+    if is_KD (kexpr SF B CD a) && is_KD (kexpr SF B CD b) && src_nameb x && is_KD (assoc x B) && kstep SF B CD body step then
       match kblock SF true B CD body with Some (_, r) => Some (B, r) | None => None end
     else None
   | None, false =>
@@ -528,13 +522,13 @@ Lemma kstmt_SFrom_parts : forall SF il B CD a b incl step name collide body r, k
 Proof.
   intros SF il B CD a b incl step name collide body r H. rewrite kstmt_SFrom in H.
   destruct name as [x|]; destruct collide; try discriminate.
-  - destruct (is_KD (kexpr SF B CD a) && ok_dexpr B CD b && src_nameb x && is_KD (assoc x B) && match used_e b with [] => true | _ => false end && kstep SF B CD body step) eqn:Hc; [|discriminate].
-    rewrite !andb_true_iff in Hc. destruct Hc as [[[[[Ha Hb] _] _] _] Hs].
-    split; [now apply is_KD_eq|]. split; [now apply ok_dexpr_kexpr|]. exists B. split.
+  - match type of H with (if ?c then _ else _) = _ => destruct c eqn:Hc; [|discriminate] end.
+    rewrite !andb_true_iff in Hc. destruct Hc as [[[[Ha Hb] _] _] Hs].
+    split; [now apply is_KD_eq|]. split; [now apply is_KD_eq|]. exists B. split.
     + destruct (kblock SF true B CD body) as [rb|]; [eauto|discriminate].
     + intros e ->. cbn [kstep] in Hs. apply andb_true_iff in Hs as [Hs _]. now apply ok_dexpr_kexpr.
   - match type of H with (if ?c then _ else _) = _ => destruct c eqn:Hc; [|discriminate] end.
-    rewrite !andb_true_iff in Hc. destruct Hc as [[[[[Ha Hb] _] _] _] Hs].
+    rewrite !andb_true_iff in Hc. destruct Hc as [[[[Ha Hb] _] _] Hs].
     split; [now apply is_KD_eq|]. split; [now apply is_KD_eq|]. exists ((x, KD) :: B). split.
     + destruct (kblock SF true ((x, KD) :: B) CD body) as [rb|]; [eauto|discriminate].
     + intros e ->. cbn [kstep] in Hs. apply andb_true_iff in Hs as [Hs _]. now apply ok_dexpr_kexpr.
@@ -650,20 +644,22 @@ with sc (c lr : nat) (sl : option nat) (k : nat) (s : stmt) {struct s} : list ci
   | SFrom a b incl step name collide body =>
     let idn := from_idn lr name in
     let lr1 := from_lr1 lr name in
-    let endr := lregn (S lr1) in
+    let startr := lregn (S lr1) in
+    let endr := lregn (S (S lr1)) in
     let '(ca, fa) := ec c lr1 k a in
     let '(cb_, fb) := ec c lr1 (k + length fa) b in
     let cond := [I OP_LOAD_FAST [idn]; I OP_LOAD_FAST [endr]; I OP_BIN_OP [if incl then op_le else op_lt]] in
-    let '(cbody, fbd) := bc (S lr1) (Some 1) (k + length fa + length fb) body in
+    let '(cbody, fbd) := bc (S (S lr1)) (Some 1) (k + length fa + length fb) body in
     let '(cs, fs) := match step with
-                     | Some e => ec c (S lr1) (k + length fa + length fb + length fbd) e
+                     | Some e => ec c (S (S lr1)) (k + length fa + length fb + length fbd) e
                      | None => ([mkI OP_MAKE_INT [s_one]], []) end in
     let cstep := map CI cs ++ [I OP_BIN_OP_ASSIGN [[43; 61]%N; idn]] in
     let full0 := cbody ++ cstep in
     let full := full0 ++ [I OP_JMP_POP [neg_off (1 + length cond + length full0)]] in
-    (map CI ca ++ [I (if collide then OP_STORE else OP_STORE_FAST) [idn]] ++ map CI cb_ ++ [I OP_STORE_FAST [endr]] ++ cond
+    (map CI ca ++ [I OP_STORE_FAST [startr]] ++ map CI cb_ ++ [I OP_STORE_FAST [endr]; I OP_LOAD_FAST [startr];
+                                                             I (if collide then OP_STORE else OP_STORE_FAST) [idn]] ++ cond
        ++ [I OP_WHILE_LOOP [sN (length full + 1)]] ++ resolve (length full) (length cstep) 0 full
-       ++ (if collide then [] else [I OP_DELETE_NAME_SCOPED [idn; endr]]), fa ++ fb ++ fbd ++ fs)
+       ++ (if collide then [] else [I OP_DELETE_NAME_SCOPED [idn; startr; endr]]), fa ++ fb ++ fbd ++ fs)
   | SBreak => ([CBrk (sln sl)], [])
   | SContinue => ([CCont (sln sl)], [])
   | SReturn None => ([I OP_RET []], [])
@@ -810,18 +806,20 @@ Definition stepc (c lr k : nat) (step : option expr) : list instr * fbl :=
 Lemma sc_SFrom : forall c lr sl k a b incl step name collide body, sc c lr sl k (SFrom a b incl step name collide body) =
   let idn := from_idn lr name in
   let lr1 := from_lr1 lr name in
-  let endr := lregn (S lr1) in
+  let startr := lregn (S lr1) in
+  let endr := lregn (S (S lr1)) in
   let '(ca, fa) := ec c lr1 k a in
   let '(cb_, fb) := ec c lr1 (k + length fa) b in
   let cond := [I OP_LOAD_FAST [idn]; I OP_LOAD_FAST [endr]; I OP_BIN_OP [if incl then op_le else op_lt]] in
-  let '(cbody, fbd) := bc c (S lr1) (Some 1) (k + length fa + length fb) body in
-  let '(cs, fs) := stepc c (S lr1) (k + length fa + length fb + length fbd) step in
+  let '(cbody, fbd) := bc c (S (S lr1)) (Some 1) (k + length fa + length fb) body in
+  let '(cs, fs) := stepc c (S (S lr1)) (k + length fa + length fb + length fbd) step in
   let cstep := map CI cs ++ [I OP_BIN_OP_ASSIGN [[43; 61]%N; idn]] in
   let full0 := cbody ++ cstep in
   let full := full0 ++ [I OP_JMP_POP [neg_off (1 + length cond + length full0)]] in
-  (map CI ca ++ [I (if collide then OP_STORE else OP_STORE_FAST) [idn]] ++ map CI cb_ ++ [I OP_STORE_FAST [endr]] ++ cond
+  (map CI ca ++ [I OP_STORE_FAST [startr]] ++ map CI cb_ ++ [I OP_STORE_FAST [endr]; I OP_LOAD_FAST [startr];
+                                                           I (if collide then OP_STORE else OP_STORE_FAST) [idn]] ++ cond
      ++ [I OP_WHILE_LOOP [sN (length full + 1)]] ++ resolve (length full) (length cstep) 0 full
-     ++ (if collide then [] else [I OP_DELETE_NAME_SCOPED [idn; endr]]), fa ++ fb ++ fbd ++ fs).
+     ++ (if collide then [] else [I OP_DELETE_NAME_SCOPED [idn; startr; endr]]), fa ++ fb ++ fbd ++ fs).
 Proof.
   intros. cbn [sc]. destruct (ec c (from_lr1 lr name) k a) as [ca fa]. destruct (ec c (from_lr1 lr name) (k + length fa) b) as [cb_ fb].
   rewrite bc_fix. reflexivity.
@@ -1111,12 +1109,12 @@ Proof.
       rewrite ?stx_lreg, ?stx_fid.
       match goal with |- context [cblockT path c (Some 1) body ?ST] =>
         destruct (comp_block body IHbody SF true Bb CD _ Ebody c (Some 1) ST) as [E3 _]; cbn [lreg fid] in E3; rewrite E3; clear E3 end.
-      destruct (bc path c (S (lreg st)) (Some 1) (fid st + length fa + length fb) body) as [cbody fbd]. cbn [fst snd].
+      destruct (bc path c (S (S (lreg st))) (Some 1) (fid st + length fa + length fb) body) as [cbody fbd]. cbn [fst snd].
       destruct step as [e|]; cbn [stepc].
       * match goal with |- context [cexpr path c e ?ST] =>
           pose proof (IHs e eq_refl SF Bb CD _ (Estep e eq_refl) c ST) as E4 end.
         rewrite stx_lreg, stx_fid in E4. cbn [lreg fid] in E4. rewrite E4. clear E4.
-        destruct (ec path c (S (lreg st)) (fid st + length fa + length fb + length fbd) e) as [cs fs]. cbn [fst snd].
+        destruct (ec path c (S (S (lreg st))) (fid st + length fa + length fb + length fbd) e) as [cs fs]. cbn [fst snd].
         split; [|intros _; destruct collide; ci2]. f_equal.
         unfold stx. cbn [fid lreg fbuf]. f_equal; [rewrite !app_length; lia|lia|rewrite !map_app, <- !app_assoc; reflexivity].
       * cbn [fst snd map]. split; [|intros _; destruct collide; ci2]. f_equal.
@@ -1129,12 +1127,12 @@ Proof.
       rewrite ?stx_lreg, ?stx_fid. cbn [st1 lreg fid]. fold st1.
       match goal with |- context [cblockT path c (Some 1) body ?ST] =>
         destruct (comp_block body IHbody SF true Bb CD _ Ebody c (Some 1) ST) as [E3 _]; cbn [lreg fid] in E3; rewrite E3; clear E3 end.
-      destruct (bc path c (S (S (lreg st))) (Some 1) (fid st + length fa + length fb) body) as [cbody fbd]. cbn [fst snd].
+      destruct (bc path c (S (S (S (lreg st)))) (Some 1) (fid st + length fa + length fb) body) as [cbody fbd]. cbn [fst snd].
       destruct step as [e|]; cbn [stepc].
       * match goal with |- context [cexpr path c e ?ST] =>
           pose proof (IHs e eq_refl SF Bb CD _ (Estep e eq_refl) c ST) as E4 end.
         rewrite stx_lreg, stx_fid in E4. cbn [lreg fid] in E4. rewrite E4. clear E4.
-        destruct (ec path c (S (S (lreg st))) (fid st + length fa + length fb + length fbd) e) as [cs fs]. cbn [fst snd].
+        destruct (ec path c (S (S (S (lreg st)))) (fid st + length fa + length fb + length fbd) e) as [cs fs]. cbn [fst snd].
         split; [|intros _; destruct collide; ci2]. f_equal.
         unfold stx. cbn [st1 fid lreg fbuf]. f_equal; [rewrite !app_length; lia|lia|rewrite !map_app, <- !app_assoc; reflexivity].
       * cbn [fst snd map]. split; [|intros _; destruct collide; ci2]. f_equal.
